@@ -70,6 +70,18 @@ def pexp(args, timeout=3600):
         raise Machinery(f"pexp {' '.join(map(str, args))}: unparsable output: {p.stdout[-500:]} {p.stderr[-500:]}")
 
 
+def selfcheck(k):
+    """Oracle for the oracle: derivative matcher vs naive matcher. A disagreement is a machinery failure."""
+    p = run([os.path.join(TARGET, "release", "selfcheck"), str(k), "5"], check=False, timeout=1800)
+    try:
+        r = json.loads(p.stdout.strip().split("\n")[-1])
+    except Exception:
+        raise Machinery("selfcheck produced no result: " + p.stderr[-500:])
+    if p.returncode != 0 or r["disagreements"]:
+        raise Machinery(f"the reference model disagrees with the naive matcher: {r['disagreements'][:3]}")
+    return {k_: r[k_] for k_ in ("regexes", "inputs", "comparisons", "accepted")}
+
+
 # ------------------------------------------------------------------ end-to-end batches
 
 def e2e_dir(prop, tier):
